@@ -5,6 +5,9 @@ import "verif/sa/core"
 // Props lists, per claimed property, the rules that decide its structural clauses.
 func Props() []core.PropSpec {
 	return []core.PropSpec{
+		{ID: "C05", Rules: []string{"B1", "K4"},
+			Explanation: "Go/generator side only: every input load the JIT decoder templates perform through (IP)(IC) is covered by a bound check established since IC last moved; optdec parses a private copy followed by at least 64 padding bytes. Reads performed inside the native routines (SIMD loads, tails, page-boundary logic) are NOT decided: they exist in the build only as byte arrays.",
+			Assumptions: []string{"a handler's first access may rely on IC < IL established by the preceding lspace opcode", "native routines are not analysed"}},
 		{ID: "C01", Rules: []string{"I0", "I1", "I2", "I3", "S1"},
 			Explanation: "Decides well-formedness of the decoder IR the JIT compiler emits (every branch resolved, state stack balanced, nesting tagged), opcode totality, and wiring clauses; decoded values, field selection semantics and natives are NOT decided.",
 			Assumptions: []string{"the emitter DSL model (add/chr/int/rtt/pin/rel/tag) is complete for the compile* functions"}},
@@ -26,7 +29,7 @@ func Props() []core.PropSpec {
 		{ID: "C08", Rules: []string{"L1", "L2", "O1", "O2"},
 			Explanation: "Decides the guarded-by discipline of all package-level state (locksets over go/cfg, atomic-only, init-only, RCU/copy-on-write cache) and pool typestate. Interleavings themselves and value-level determinism are NOT decided.",
 			Assumptions: []string{"sync.Pool/sync.Mutex are correct", "objects handed to natives are not shared"}},
-		{ID: "C02", Rules: []string{"T1", "K1"},
+		{ID: "C02", Rules: []string{"T1", "K1", "A5"},
 			Explanation: "Decides that each JSON-consuming entry point owes and performs a trailing check after a validating native, and that the nesting limit is one constant everywhere. The accept language of the native FSM (byte arrays) is NOT decided.",
 			Assumptions: []string{"native.ValidateOne / SkipOne(flags=0) validate structure (not analysed: byte arrays)"}},
 		{ID: "C17", Rules: []string{"E1", "E2", "E3", "E4"},
